@@ -2,7 +2,8 @@
 // regular files to $IOSHIM_LOG ("W <fd> <offset> <len>" / "S <fd> <result>") and makes the fsync whose
 // ordinal (1-based, counted over the process) equals the integer stored in the file $IOSHIM_CTL fail with EIO.
 // If $IOSHIM_CTL holds "W <n>" instead, the n-th write (1-based, counted over the process) to a matching file
-// fails with EIO without writing anything ("W <fd> <offset> <len> FAIL" is logged).
+// fails with EIO without writing anything ("W <fd> <offset> <len> FAIL" is logged).  "P <n> <len>" makes the n-th write
+// short (<len> bytes) and the following write call fail: a short write followed by an error.
 #define _GNU_SOURCE
 #include <dlfcn.h>
 #include <errno.h>
@@ -44,12 +45,32 @@ ssize_t write(int fd, const void *buf, size_t len) {
     if (is_db(fd)) {
         char l[128];
         nwrite++;
-        int failw = -1;
+        int failw = -1, shortw = -1, shortlen = 0;
         const char *ctl = getenv("IOSHIM_CTL");
         if (ctl) {
             FILE *f = fopen(ctl, "r");
-            if (f) { if (fscanf(f, "W %d", &failw) != 1) failw = -1; fclose(f); }
+            if (f) {
+                char mode = 0; int a = -1, b = 0;
+                int got = fscanf(f, " %c %d %d", &mode, &a, &b);
+                if (got >= 2 && mode == 'W') failw = a;
+                if (got >= 3 && mode == 'P') { shortw = a; shortlen = b; }
+                // "H <limit> <len>": the first write at a file offset below <limit> (a header page) is short, the next call fails
+                if (got >= 3 && mode == 'H') {
+                    static int armed_at = -1;
+                    if (armed_at < 0 && lseek(fd, 0, SEEK_CUR) < (off_t)a) armed_at = nwrite;
+                    if (armed_at >= 0) { shortw = armed_at; shortlen = b; }
+                }
+                fclose(f);
+            }
         }
+        // "P <n> <len>": the n-th write is SHORT (only the first <len> bytes reach the file), and the call that follows
+        // it (write_all's retry with the rest) fails with EIO: "short write then error"
+        if (shortw == nwrite && (size_t)shortlen < len) {
+            snprintf(l, sizeof l, "W %d %lld %d SHORT\n", fd, (long long)lseek(fd, 0, SEEK_CUR), shortlen);
+            logline(l);
+            return real(fd, buf, (size_t)shortlen);
+        }
+        if (shortw >= 0 && shortw + 1 == nwrite) failw = nwrite;
         if (failw == nwrite) {
             snprintf(l, sizeof l, "W %d %lld %zu FAIL\n", fd, (long long)lseek(fd, 0, SEEK_CUR), len);
             logline(l);
